@@ -123,7 +123,12 @@ def rejects(c, dep, n=2, iface='exp'):
         'sqrtprec=s': lambda: Gaussian(mu, sqrtprec=lambda s: s, geometry=n, name='x'),
         'two_occurrences': lambda: Gaussian(lambda s: s * np.ones(n), prec=lambda s: s, geometry=n, name='x'),
     }
-    if dep == 'vector_gamma':
+    if dep in ('vector_rate_gamma', 'geometry2_gamma'):
+        # a non-scalar Gamma whose SHAPE parameter is scalar (dimension from the rate vector / from the geometry)
+        s2 = Gamma(alpha, np.array([beta, 2 * beta]), name='s') if dep == 'vector_rate_gamma' else Gamma(alpha, beta, geometry=2, name='s')
+        x = Gaussian(mu, prec=lambda s: s, geometry=n, name='x')
+        target = JointDistribution(s2, x)(x=data)
+    elif dep == 'vector_gamma':
         s2 = Gamma(np.array([alpha, alpha]), np.array([beta, beta]), name='s')
         x = Gaussian(mu, prec=lambda s: s, geometry=n, name='x')
         target = JointDistribution(s2, x)(x=data)
@@ -171,7 +176,7 @@ def jobs(tier):
             for order in (1, 2):
                 if order == 2 and bc == 'neumann': continue
                 J.append(Job(f'{tag}.Conjugate:GMRF:bc={bc}:order={order}:n=4', lambda c, i=iface, bc=bc, o=order: conjugate_exact(c, i, 'GMRF', 4, bc, o), 'Pbox', fl, extra=_extra, rtol=1e-4, timeout=600))
-    for dep in ('cov=c/s', 'cov=1/s^2', 'cov=s', 'cov=1/(s+b)', 'prec=c*s', 'prec=s^2', 'prec=s^3', 'prec=1/s', 'prec=s+b', 'sqrtprec=s', 'two_occurrences', 'vector_gamma'):
+    for dep in ('cov=c/s', 'cov=1/s^2', 'cov=s', 'cov=1/(s+b)', 'prec=c*s', 'prec=s^2', 'prec=s^3', 'prec=1/s', 'prec=s+b', 'sqrtprec=s', 'two_occurrences', 'vector_gamma', 'vector_rate_gamma', 'geometry2_gamma'):
         J.append(Job(f'experimental.Conjugate:rejects:{dep}', lambda c, d=dep: rejects(c, d), 'Pbox',
                      ['cuqi.experimental.mcmc._conjugate:_GaussianGammaPair.validate_target', 'cuqi.experimental.mcmc._conjugate:_check_conjugate_parameter_is_scalar_identity',
                       'cuqi.experimental.mcmc._conjugate:_check_conjugate_parameter_is_scalar_reciprocal'], extra=_extra))
